@@ -31,8 +31,31 @@ def parse_period_token(tok: str):
     return Period((DateUnit(u), Instant(parse_date(d)), int(n)))
 
 
+def _leap(y):
+    return y % 4 == 0 and (y % 100 != 0 or y % 400 == 0)
+
+
+_DBM = [0, 31, 59, 90, 120, 151, 181, 212, 243, 273, 304, 334]
+_DIM = [31, 28, 31, 30, 31, 30, 31, 31, 30, 31, 30, 31]
+
+
+def _dim(y, m):
+    return 29 if (m == 2 and _leap(y)) else _DIM[m - 1]
+
+
 def O(t) -> int:
-    return dt.date(*t).toordinal()
+    """proleptic Gregorian ordinal for any year >= 1 (datetime stops at 9999); validated against datetime in range"""
+    y, m, d = t
+    if not (1 <= m <= 12 and 1 <= d <= _dim(y, m) and y >= 1):
+        raise ValueError(f"invalid date {t}")
+    y1 = y - 1
+    return y1 * 365 + y1 // 4 - y1 // 100 + y1 // 400 + _DBM[m - 1] + (1 if m > 2 and _leap(y) else 0) + d
+
+
+def _addm_t(t, n):
+    y, m = divmod(t[0] * 12 + t[1] - 1 + n, 12)
+    m += 1
+    return (y, m, min(t[2], _dim(y, m)))
 
 
 def addm(d: dt.date, n: int) -> dt.date:
@@ -43,16 +66,14 @@ def addm(d: dt.date, n: int) -> dt.date:
 
 def end_ord(u: str, s, n: int) -> int:
     """ordinal of the last day of (u, s, n), computed with datetime only"""
-    d = dt.date(*s)
+    s = tuple(s)
     if u == "year":
-        e = addm(d, 12 * n)
-    elif u == "month":
-        e = addm(d, n)
-    elif u == "week":
-        e = d + dt.timedelta(days=7 * n)
-    else:
-        e = d + dt.timedelta(days=n)
-    return e.toordinal() - 1
+        return O(_addm_t(s, 12 * n)) - 1
+    if u == "month":
+        return O(_addm_t(s, n)) - 1
+    if u == "week":
+        return O(s) + 7 * n - 1
+    return O(s) + n - 1
 
 
 BOUNDARY_YEARS = [1999, 2000, 2001, 2004, 2015, 2016, 2019, 2020, 2021, 2026, 2100, 1900, 2400, 1000, 1001, 9000, 4, 100, 400]
